@@ -293,7 +293,9 @@ def tlc(workdir, module, cfg, *, workers=None, dump=None, simulate=None, depth=N
     os.makedirs(workdir, exist_ok=True)
     meta = os.path.join(workdir, "meta")
     shutil.rmtree(meta, ignore_errors=True)
-    cmd = ["java", "-XX:+UseParallelGC", "-Xss16m"] + list(java_opts) + ["-cp", JAR, "tlc2.TLC",
+    jtmp = os.path.join(workdir, "jtmp")          # TLC / SANY leave a temp directory per run behind: keep them out of /tmp and remove them
+    os.makedirs(jtmp, exist_ok=True)
+    cmd = ["java", "-XX:+UseParallelGC", "-Xss16m", "-Djava.io.tmpdir=" + jtmp] + list(java_opts) + ["-cp", JAR, "tlc2.TLC",
            "-metadir", meta, "-noGenerateSpecTE",
            "-workers", str(workers or NCPU)]
     if coverage:
@@ -318,7 +320,9 @@ def tlc(workdir, module, cfg, *, workers=None, dump=None, simulate=None, depth=N
         pr = subprocess.run(cmd, cwd=SPEC, env=e, capture_output=True, text=True, timeout=timeout)
     except subprocess.TimeoutExpired:
         subprocess.run(["pkill", "-f", meta], check=False)
+        shutil.rmtree(jtmp, ignore_errors=True)
         raise MachineryError("TLC timeout after %ss: %s %s" % (timeout, module, cfg))
+    shutil.rmtree(jtmp, ignore_errors=True)
     out = pr.stdout + pr.stderr
     with open(os.path.join(workdir, "tlc.log"), "w") as fh:
         fh.write(" ".join(cmd) + "\n" + out)
